@@ -62,6 +62,26 @@ def toy_case(rec, d, k, digest, allow_truncate):
     return None
 
 
+def samename_case(rec_a, rec_b, d, k, digest):
+    """two user-defined Curve objects that carry the SAME name (nothing makes
+    names unique) used one after the other: r, s on each must be its own"""
+    from ecdsa import curves
+    from ecdsa.keys import SigningKey
+    out = None
+    for rec in (rec_a, rec_b, rec_a):
+        env = ecd.env_for(rec)
+        t = env.toy
+        c = curves.Curve("custom", t.lib_curvefp(), t.lib_generator(),
+                         (1, 3, 9999, 77))
+        dd, kk = d % (env.n - 1) + 1, k % (env.n - 1) + 1
+        sk = SigningKey.from_secret_exponent(dd, c)
+        exp = expected(env.n, env.baselen, digest, True, dd, kk, env.mult[kk])
+        got = observe(sk, digest, kk, True)
+        if exp[0] != "unspecified" and exp != got and out is None:
+            out = ("samename:" + exp[0], exp, got)
+    return out
+
+
 def shard_toy(arg):
     rec, ds, ks, digests, truncs = arg
     from ecdsa.keys import SigningKey
@@ -222,6 +242,9 @@ def replay(check, case):
     if check == "toy":
         bad = toy_case(case["rec"], case["d"], case["k"], case["digest"],
                        case["allow_truncate"])
+    elif check == "samename":
+        bad = samename_case(case["rec_a"], case["rec_b"], case["d"], case["k"],
+                            case["digest"])
     elif check == "pubkey":
         bad = pubkey_case(case["rec"], case["d"])
     elif check == "real":
@@ -327,6 +350,7 @@ def main(ctx):
     return rep
 
 
+
 def mixed_cases(ctx):
     from ecdsa import curves as cv
     groups = []
@@ -343,4 +367,14 @@ def mixed_cases(ctx):
                                                    digest=dg,
                                                    allow_truncate=True)))
         groups.append(items)
+    # user-defined curves of different order bit lengths under one name
+    toys = [catalog.first("h1", "nbits%d" % b) for b in (7, 8, 9, 10, 12, 16)]
+    items = []
+    for a in toys:
+        for b in toys:
+            if a is not b:
+                for dg in (b"\xff\xff\xff", b"\x80\x00\x01\x55"):
+                    items.append(("samename", dict(rec_a=a.rec(), rec_b=b.rec(),
+                                                   d=3, k=5, digest=dg)))
+    groups.append(items)
     return groups
